@@ -92,7 +92,16 @@ def determinism(vc, a):
     finally:
         shutil.rmtree(tmp, ignore_errors=True)
     os.makedirs(os.path.join(ROOT, "evidence"), exist_ok=True)
-    with open(os.path.join(ROOT, "evidence", "selftest_determinism.json"), "w") as f:
+    out = os.path.join(ROOT, "evidence", "selftest_determinism.json")
+    if a.profiles and os.path.exists(out):
+        # a partial run updates the entries it covered
+        try:
+            merged = json.load(open(out))
+        except Exception:
+            merged = {}
+        merged.update(report)
+        report = merged
+    with open(out, "w") as f:
         json.dump(report, f, indent=1)
     return 2 if bad else 0
 
